@@ -14,7 +14,13 @@ CFG = dict(
          "reproduced history; truncations in the middle of the history (some while a committer is stalled), the "
          "same cut twice, decreasing cuts; after truncation ReadTx+ReadValue of every entry, ExportTx of every tx "
          "under a 2 s liveness bound with the _valBsMux state observed, Get/Resolve of every key, dual proof, "
-         "restart and the same reads again. A case is non-trivial when it contains a truncation and at least two "
+         "restart and the same reads again; plus pkg/database rounds (direct checks, quick tier too): tables with CHECK "
+         "constraints (named/unnamed), NOT NULL, AUTO_INCREMENT, composite PK, added column, secondary and UNIQUE "
+         "indexes, view, sequence, collection with indexed fields, all created before the cut, file size 256..512 so "
+         "that the chunks holding the DDL values are deleted (verified on the chunk files), baseline restart, two "
+         "truncate+restart cycles, after each: SELECT on every table/index, one satisfying and one violating INSERT "
+         "per constraint (refused for the right error), document insert/search, re-insert of a primary key deleted "
+         "before the cut. A case is non-trivial when it contains a truncation and at least two "
          "transactions; distinct by the whole (configuration, operations, observations) term",
     trusted_base=COMMON_TB + [
         "modelled (coq/Trunc/Model.v): encodeOffset/decodeOffset (with the code's mask), appendValuesInto/"
